@@ -41,6 +41,17 @@ var c06Pool = func() []ast.Term {
 		ast.SetOf(ast.Bool(true)), ast.SetOf(ast.Bool(true), ast.Bool(false)),
 		ast.SetOf(ast.Int(1), ast.Int(1)), // duplicates: lenient zone
 	)
+	// larger sets of every kind (implementations switch algorithms by size)
+	for _, n := range []int{9, 17} {
+		bi, bs, by, bd := ast.Term{K: ast.KSet}, ast.Term{K: ast.KSet}, ast.Term{K: ast.KSet}, ast.Term{K: ast.KSet}
+		for i := 0; i < n; i++ {
+			bi.Set = append(bi.Set, ast.Int(int64(i)))
+			bs.Set = append(bs.Set, ast.Str(fmt.Sprintf("s%d", i)))
+			by.Set = append(by.Set, ast.Bytes([]byte{byte(i), 0x41}))
+			bd.Set = append(bd.Set, ast.Date(uint64(i)))
+		}
+		p = append(p, bi, bs, by, bd)
+	}
 	return p
 }()
 
@@ -252,7 +263,11 @@ func c06Tree(r *rand.Rand, want ast.Kind, elem ast.Kind, depth int, env map[stri
 	leaf := func() ast.Expr {
 		var t ast.Term
 		if want == ast.KSet {
-			t = gen.SetOf(r, elem, 1+r.Intn(3), r.Intn(2) == 0)
+			n := 1 + r.Intn(3)
+			if r.Intn(5) == 0 {
+				n = 4 + r.Intn(14)
+			}
+			t = gen.SetOf(r, elem, n, r.Intn(2) == 0)
 		} else if r.Intn(2) == 0 {
 			t = gen.HardScalar(r, want)
 		} else {
